@@ -47,3 +47,9 @@ claim('C15', 'exploration', 'metamorphic insertion: every token boundary x every
       'support on and off; return code and a hash of the values-only tree must equal the uncommented run. Annotation probes check getter, print and re-parse for comments placed immediately before scalar '
       'and non-empty list assignments. The law is metamorphic over insertion points, so exhaustive insertion over sampled texts is the fitting level.',
       'Trusts: the values-only tree hash computed in the driver through public getters; annotation probes cover top-level items only.')
+
+claim('C08', 'exploration', 'bounded-exhaustive history enumeration, one process per history, probe results compared with their fresh-process results (differential monitor; scanner-state hook for evidence)',
+      'All histories to the length bound over 16 prior events (every kind of aborted parse, include failures at depth 1/3/limit, range failures, root free/re-init, second context), each in its own '
+      'process, are followed by 11 probe parses into contexts untouched by the history; return code, full tree and diagnostics (file, line, text) must equal the probe\'s result in a fresh process. '
+      'Interleavings over two live contexts are compared with solo runs. The property is about orderings of calls over process-global scanner state, which only history enumeration reaches.',
+      'Trusts: the probe set as a detector of residual state (start condition, buffer stack, include stack, scratch buffer, errno); the residual states actually reached are listed in the evidence via the LIBCONFUSE_VERIF hook.')
